@@ -247,7 +247,7 @@ fn gen_unamb(g: &mut Gen, kind: i128, year_abs_lt: i128) -> Vec<Item> {
     }
     // shuffle and interleave non-digit separators
     for i in (1..fields.len()).rev() { let j = (g.rng.next() as usize) % (i + 1); fields.swap(i, j); }
-    let seps: Vec<char> = " /:.,T|_".chars().collect();
+    let seps: Vec<char> = " /:.,T|_\u{e9}\u{20ac}\u{1f600}".chars().collect();   // incl. 2-, 3- and 4-byte literals
     let mut out = vec![];
     let mut last_sep = ' ';
     for (i, f) in fields.iter().enumerate() {
